@@ -109,6 +109,10 @@ func (f *Frame) frameObligations(x exitPoint, xi int) {
 	allowed := map[string][]*Term{}
 	whole := map[string]bool{}
 	envEntry := &Env{F: f, State: f.entryState, Old: f.entryState, Fn: f.Fn}
+	for _, cl := range fc.Effects {
+		name, _ := splitWord(cl.Text)
+		whole[name] = true
+	}
 	for _, cl := range fc.Modifies {
 		ex := cl.E
 		switch ex.K {
@@ -170,7 +174,7 @@ func (f *Frame) frameObligations(x exitPoint, xi int) {
 			}
 		}
 	}
-	alloc0 := entryVar(allocKey, ArrayS(IntS, BoolS))
+	alloc0 := entryVar(allocKey, allocSort)
 	for _, k := range sortedKeys(x.state.sorts) {
 		s := x.state.sorts[k]
 		if whole[k] || k == allocKey || strings.HasPrefix(k, "L$") || strings.HasPrefix(k, "DEFER$") || strings.HasPrefix(k, "VIS$") || strings.HasPrefix(k, "POS$") {
@@ -188,7 +192,7 @@ func (f *Frame) frameObligations(x exitPoint, xi int) {
 		// for every object allocated at entry and not listed: unchanged
 		ob := Bound{Name: "o!frame", S: IntS}
 		ov := Var(ob.Name, IntS)
-		conds := []*Term{Select(alloc0, ov)}
+		conds := []*Term{allocatedIn(alloc0, ov)}
 		for _, a := range allowed[k] {
 			conds = append(conds, Neq(ov, a))
 		}
@@ -238,4 +242,54 @@ func (f *Frame) retText(x exitPoint) string {
 		return "return"
 	}
 	return t
+}
+
+
+// VerifyCallers: structural obligation on the SSA call graph: the callee is
+// referenced (called, deferred, started as a goroutine or taken as a value)
+// only from the allowed functions.
+func VerifyCallers(p *Program, cr *CallersRule) (*Enc, error) {
+	target := p.ByKey[cr.Callee]
+	if target == nil {
+		return nil, fmt.Errorf("callers: function %s not found", cr.Callee)
+	}
+	e := NewEnc(p, nil, &FuncContract{Key: "callers." + cr.Callee, Props: cr.Props})
+	allowed := map[string]bool{}
+	for _, a := range cr.Allowed {
+		allowed[a] = true
+	}
+	var offenders []string
+	for _, key := range p.sortedFuncKeys() {
+		fn := p.ByKey[key]
+		if !isRepoFunc(fn) || fn == target {
+			continue
+		}
+		outer := fn
+		for outer.Parent() != nil {
+			outer = outer.Parent()
+		}
+		uses := false
+		for _, b := range fn.Blocks {
+			for _, in := range b.Instrs {
+				for _, op := range in.Operands(nil) {
+					if *op == ssa.Value(target) {
+						uses = true
+					}
+				}
+			}
+		}
+		if uses && !allowed[funcKey(outer)] {
+			offenders = append(offenders, funcKey(outer))
+		}
+	}
+	goal := True
+	if len(offenders) > 0 {
+		goal = False
+	}
+	o := &Obl{Name: "callers:" + cr.Callee, Kind: "callers", Func: "callers." + cr.Callee, Ord: e.tick(), Guard: True, Goal: goal, Props: cr.Props, Where: cr.Where, Enc: e}
+	if len(offenders) > 0 {
+		o.Extra = map[string]string{"offending_callers": strings.Join(offenders, ", ")}
+	}
+	e.obls = append(e.obls, o)
+	return e, nil
 }
